@@ -28,7 +28,10 @@ C02_OPS = ["add", "sub", "mul", "div", "sqrt", "neg", "abs", "copysign", "bitofs
            "is_even", "is_odd", "sign", "signnz"]
 C08_OPS = ["ceil", "floor", "trunc", "round", "nearbyint", "rint"]
 
+C04_OPS = ["load_aligned", "load_unaligned", "store_aligned", "store_unaligned", "broadcast"]
+
 PROPS = {
+    "C04": dict(ops=C04_OPS, types=ALL_TYPES, design="5.5"),
     "C02": dict(ops=C02_OPS, types=FLOAT_TYPES, design="5.3"),
     "C08": dict(ops=C08_OPS, types=FLOAT_TYPES, design="5.9"),
     "C01": dict(ops=C01_OPS, types=INT_TYPES, design="5.2"),
